@@ -30,7 +30,7 @@ pub fn components_stream() -> Value {
 }
 
 pub fn all_property_ids() -> Vec<&'static str> {
-    vec!["C01", "C03", "C04", "C05", "C06", "C07", "C08", "C09", "C10", "C12", "C13"]
+    vec!["C01", "C03", "C04", "C05", "C06", "C07", "C08", "C09", "C10", "C11", "C12", "C13"]
 }
 
 pub fn property_spec(id: &str) -> Option<PropertySpec> {
@@ -44,6 +44,7 @@ pub fn property_spec(id: &str) -> Option<PropertySpec> {
         "C08" => Some(crate::scen::c08::spec()),
         "C09" => Some(crate::scen::c09::spec()),
         "C10" => Some(crate::scen::c10::spec()),
+        "C11" => Some(crate::scen::c11::spec()),
         "C12" => Some(crate::scen::c12::spec()),
         "C13" => Some(crate::scen::c13::spec()),
         _ => None,
